@@ -301,4 +301,174 @@ Proof.
 Qed.
 End Moments.
 
+
+(* ------------------------------------------------------------------ *)
+(* 5. covariance under the simultaneous orthogonal substitution         *)
+Section Invariance.
+Variables (Q : mat (F:=F)) (a1 c1 : axis -> F) (s11 s12 s22 : F).
+Hypothesis HQ : orth_rows K Q.
+Notation E6o := (E6 a1 c1 s11 s12 s22).
+Notation M6o := (M6 a1 c1 s11 s12 s22).
+
+(* Stein's rule for a linear form of the electron-1 (electron-2) variables on a tensor product *)
+Lemma E6_tens_mullin1 l f g :
+  E6o (tens (mullin K l f) g)
+  = sum3 K (fun j => l j * (a1 j * E6o (tens f g) + s11 * E6o (tens (dv K j f) g) + s12 * E6o (tens f (dv K j g)))).
+Proof.
+  unfold E6. rewrite Jsum6_tens, (Jsum_mullin_exp K Kf).
+  rewrite <- (Jsum6_tens M6o (mulv AX f) g), <- (Jsum6_tens M6o (mulv AY f) g), <- (Jsum6_tens M6o (mulv AZ f) g).
+  rewrite !tens_mulv1. fold (E6o (mulv6 E1 AX (tens f g))) (E6o (mulv6 E1 AY (tens f g)))
+    (E6o (mulv6 E1 AZ (tens f g))).
+  rewrite !stein6_1. unfold sum3, E6. rewrite !tens_dv1, !tens_dv2. ring.
+Qed.
+Lemma E6_tens_mullin2 l f g :
+  E6o (tens f (mullin K l g))
+  = sum3 K (fun j => l j * (c1 j * E6o (tens f g) + s12 * E6o (tens (dv K j f) g) + s22 * E6o (tens f (dv K j g)))).
+Proof.
+  unfold E6. rewrite Jsum6_tens', (Jsum_mullin_exp K Kf).
+  rewrite <- (Jsum6_tens' M6o f (mulv AX g)), <- (Jsum6_tens' M6o f (mulv AY g)), <- (Jsum6_tens' M6o f (mulv AZ g)).
+  rewrite !tens_mulv2. fold (E6o (mulv6 E2 AX (tens f g))) (E6o (mulv6 E2 AY (tens f g)))
+    (E6o (mulv6 E2 AZ (tens f g))).
+  rewrite !stein6_2. unfold sum3, E6. rewrite !tens_dv1, !tens_dv2. ring.
+Qed.
+
+(* chain rule on the monomials of either electron *)
+Lemma E6_tens_dv_subst1 j m1 g :
+  E6o (tens (dv K j (subst_mon K Q m1)) g)
+  = sum3 K (fun k => Q k j * (#(expo k m1) * E6o (tens (subst_mon K Q (mlower k m1)) g))).
+Proof. unfold E6, sum3. rewrite !Jsum6_tens, (dv_subst_mon K Kf). reflexivity. Qed.
+Lemma E6_tens_dv_subst2 j f m2 :
+  E6o (tens f (dv K j (subst_mon K Q m2)))
+  = sum3 K (fun k => Q k j * (#(expo k m2) * E6o (tens f (subst_mon K Q (mlower k m2))))).
+Proof. unfold E6, sum3. rewrite !Jsum6_tens', (dv_subst_mon K Kf). reflexivity. Qed.
+
+Definition JQ (m : mon6) : F := E6o (subst6_mon Q m).
+
+Lemma JQ_laws :
+  stein6_laws (fun i => dot K (Q i) a1) (fun i => dot K (Q i) c1) s11 s12 s22 1 JQ.
+Proof.
+  split; [|split].
+  - unfold JQ, subst6_mon, zero6. cbn [fst snd]. unfold subst_mon. cbn [expo fst snd powop].
+    unfold E6. rewrite tens_one. fold (E6o one6). apply E6_one.
+  - intros i [m1 m2]. unfold JQ, subst6_mon. cbn [bump6 mlower6 expo6 fst snd].
+    unfold E6 at 1.
+    rewrite (tens_cong _ _ _ _ (subst_mon_bump K Kf Q i m1) (peq_refl K (subst_mon K Q m2))).
+    fold (E6o (tens (mullin K (Q i) (subst_mon K Q m1)) (subst_mon K Q m2))).
+    rewrite E6_tens_mullin1. unfold sum3. rewrite !E6_tens_dv_subst1, !E6_tens_dv_subst2. unfold sum3, dot.
+    pose proof (HQ i AX) as H1. pose proof (HQ i AY) as H2. pose proof (HQ i AZ) as H3.
+    unfold sum3 in H1, H2, H3.
+    set (T := E6o (tens (subst_mon K Q m1) (subst_mon K Q m2))).
+    set (XX := #(expo AX m1) * E6o (tens (subst_mon K Q (mlower AX m1)) (subst_mon K Q m2))).
+    set (XY := #(expo AY m1) * E6o (tens (subst_mon K Q (mlower AY m1)) (subst_mon K Q m2))).
+    set (XZ := #(expo AZ m1) * E6o (tens (subst_mon K Q (mlower AZ m1)) (subst_mon K Q m2))).
+    set (YX := #(expo AX m2) * E6o (tens (subst_mon K Q m1) (subst_mon K Q (mlower AX m2)))).
+    set (YY := #(expo AY m2) * E6o (tens (subst_mon K Q m1) (subst_mon K Q (mlower AY m2)))).
+    set (YZ := #(expo AZ m2) * E6o (tens (subst_mon K Q m1) (subst_mon K Q (mlower AZ m2)))).
+    transitivity ((Q i AX * a1 AX + Q i AY * a1 AY + Q i AZ * a1 AZ) * T
+      + s11 * ((Q i AX * Q AX AX + Q i AY * Q AX AY + Q i AZ * Q AX AZ) * XX
+               + (Q i AX * Q AY AX + Q i AY * Q AY AY + Q i AZ * Q AY AZ) * XY
+               + (Q i AX * Q AZ AX + Q i AY * Q AZ AY + Q i AZ * Q AZ AZ) * XZ)
+      + s12 * ((Q i AX * Q AX AX + Q i AY * Q AX AY + Q i AZ * Q AX AZ) * YX
+               + (Q i AX * Q AY AX + Q i AY * Q AY AY + Q i AZ * Q AY AZ) * YY
+               + (Q i AX * Q AZ AX + Q i AY * Q AZ AY + Q i AZ * Q AZ AZ) * YZ)); [ring|].
+    rewrite H1, H2, H3. unfold delta3, XX, XY, XZ, YX, YY, YZ, T, dot, sum3. destruct i; cbn [axis_eqb]; ring.
+  - intros i [m1 m2]. unfold JQ, subst6_mon. cbn [bump6 mlower6 expo6 fst snd].
+    unfold E6 at 1.
+    rewrite (tens_cong _ _ _ _ (peq_refl K (subst_mon K Q m1)) (subst_mon_bump K Kf Q i m2)).
+    fold (E6o (tens (subst_mon K Q m1) (mullin K (Q i) (subst_mon K Q m2)))).
+    rewrite E6_tens_mullin2. unfold sum3. rewrite !E6_tens_dv_subst1, !E6_tens_dv_subst2. unfold sum3, dot.
+    pose proof (HQ i AX) as H1. pose proof (HQ i AY) as H2. pose proof (HQ i AZ) as H3.
+    unfold sum3 in H1, H2, H3.
+    set (T := E6o (tens (subst_mon K Q m1) (subst_mon K Q m2))).
+    set (XX := #(expo AX m1) * E6o (tens (subst_mon K Q (mlower AX m1)) (subst_mon K Q m2))).
+    set (XY := #(expo AY m1) * E6o (tens (subst_mon K Q (mlower AY m1)) (subst_mon K Q m2))).
+    set (XZ := #(expo AZ m1) * E6o (tens (subst_mon K Q (mlower AZ m1)) (subst_mon K Q m2))).
+    set (YX := #(expo AX m2) * E6o (tens (subst_mon K Q m1) (subst_mon K Q (mlower AX m2)))).
+    set (YY := #(expo AY m2) * E6o (tens (subst_mon K Q m1) (subst_mon K Q (mlower AY m2)))).
+    set (YZ := #(expo AZ m2) * E6o (tens (subst_mon K Q m1) (subst_mon K Q (mlower AZ m2)))).
+    transitivity ((Q i AX * c1 AX + Q i AY * c1 AY + Q i AZ * c1 AZ) * T
+      + s12 * ((Q i AX * Q AX AX + Q i AY * Q AX AY + Q i AZ * Q AX AZ) * XX
+               + (Q i AX * Q AY AX + Q i AY * Q AY AY + Q i AZ * Q AY AZ) * XY
+               + (Q i AX * Q AZ AX + Q i AY * Q AZ AY + Q i AZ * Q AZ AZ) * XZ)
+      + s22 * ((Q i AX * Q AX AX + Q i AY * Q AX AY + Q i AZ * Q AX AZ) * YX
+               + (Q i AX * Q AY AX + Q i AY * Q AY AY + Q i AZ * Q AY AZ) * YY
+               + (Q i AX * Q AZ AX + Q i AY * Q AZ AY + Q i AZ * Q AZ AZ) * YZ)); [ring|].
+    rewrite H1, H2, H3. unfold delta3, XX, XY, XZ, YX, YY, YZ, T, dot, sum3. destruct i; cbn [axis_eqb]; ring.
+Qed.
+
+(* THE SIX-DIMENSIONAL GAUSSIAN MOMENT FUNCTIONAL IS COVARIANT UNDER THE SIMULTANEOUS ORTHOGONAL SUBSTITUTION:
+   the functional with means (a1, c1) of f o (Q + Q) is the functional with means (Q a1, Q c1) of f *)
+Theorem E6_subst6_orth f :
+  E6o (subst6 Q f) = E6 (fun i => dot K (Q i) a1) (fun i => dot K (Q i) c1) s11 s12 s22 f.
+Proof.
+  unfold E6 at 1. unfold subst6. rewrite Jsum6_lift6. unfold E6. apply Jsum6_ext. intro m.
+  fold (E6o (subst6_mon Q m)). fold (JQ m).
+  rewrite (moments6_unique _ _ _ _ _ JQ 1 JQ_laws m). ring.
+Qed.
+End Invariance.
+
+(* the functional depends on the means through their values only *)
+Lemma E6_means_ext a1 c1 a1' c1' s11 s12 s22 f :
+  (forall i, a1 i = a1' i) -> (forall i, c1 i = c1' i) -> E6 a1 c1 s11 s12 s22 f = E6 a1' c1' s11 s12 s22 f.
+Proof.
+  intros Ha Hc. unfold E6. apply Jsum6_ext. intro m. unfold M6, Mw.
+  now rewrite (Ha AX), (Ha AY), (Ha AZ), (Hc AX), (Hc AY), (Hc AZ).
+Qed.
+
+(* ------------------------------------------------------------------ *)
+(* 6. E6 of a tensor product of shifted monomials factorises over the axes *)
+(* the horizontal recursion  H[b+1][a] = H[b][a+1] + c H[b][a]  (the [Hf] of Proofs/TwoElecP.v) *)
+Fixpoint shf (c : F) (T : nat -> F) (b a : nat) : F :=
+  match b with O => T a | S b' => shf c T b' (S a) + c * shf c T b' a end.
+Lemma shf_shift c T : forall b a, shf c (fun n => T (S n)) b a = shf c T b (S a).
+Proof. induction b as [|b IH]; intro a; cbn [shf]; [reflexivity|]. now rewrite !IH. Qed.
+
+(* functionals of product form *)
+Definition pj (jx jy jz : nat -> F) : mon -> F := fun m => jx (expo AX m) * jy (expo AY m) * jz (expo AZ m).
+
+Lemma pj_powop_plin3 i c n g : forall jx jy jz,
+  Jsum (pj jx jy jz) (powop (plin3 K i c) n g)
+  = Jsum (pj (match i with AX => (fun a => shf c jx n a) | _ => jx end)
+             (match i with AY => (fun a => shf c jy n a) | _ => jy end)
+             (match i with AZ => (fun a => shf c jz n a) | _ => jz end)) g.
+Proof.
+  induction n as [|n IH]; intros jx jy jz; cbn [powop].
+  - apply Jsum_ext. intro m. unfold pj. destruct i; reflexivity.
+  - rewrite (Jsum_plin3_exp K Kf), (Jsum_mulv K), IH.
+    rewrite (Jsum_ext K (mulvT i (pj jx jy jz))
+               (pj (match i with AX => (fun a => jx (S a)) | _ => jx end)
+                   (match i with AY => (fun a => jy (S a)) | _ => jy end)
+                   (match i with AZ => (fun a => jz (S a)) | _ => jz end))).
+    2:{ intros [[x y] z]. unfold mulvT, pj. destruct i; reflexivity. }
+    rewrite IH, <- (Jsum_Jscale K Kf), <- (Jsum_Jadd K Kf). apply Jsum_ext. intro m. unfold pj.
+    destruct i; cbn [shf]; rewrite shf_shift; ring.
+Qed.
+
+Lemma pj_smono c b g jx jy jz :
+  Jsum (pj jx jy jz) (smono K c b g)
+  = Jsum (pj (fun a => shf (c AX) jx (expo AX b) a) (fun a => shf (c AY) jy (expo AY b) a)
+             (fun a => shf (c AZ) jz (expo AZ b) a)) g.
+Proof. unfold smono. rewrite (pj_powop_plin3 AX), (pj_powop_plin3 AY), (pj_powop_plin3 AZ). reflexivity. Qed.
+
+Lemma pj_smono_mono3 c b a jx jy jz :
+  Jsum (pj jx jy jz) (smono K c b (mono3 K a))
+  = shf (c AX) jx (expo AX b) (expo AX a) * shf (c AY) jy (expo AY b) (expo AY a)
+    * shf (c AZ) jz (expo AZ b) (expo AZ a).
+Proof. rewrite pj_smono. unfold mono3, pj. cbn [Poly3.Jsum fst snd]. ring. Qed.
+
+(* ((y1 + cB)^b y1^a) (x) ((y2 + cD)^d y2^c) under E6: the product over the axes of the four-index quantities *)
+Theorem E6_tens_smono a1 c1 s11 s12 s22 (cB cD : axis -> F) (a b c d : mon) :
+  E6 a1 c1 s11 s12 s22 (tens (smono K cB b (mono3 K a)) (smono K cD d (mono3 K c)))
+  = shf (cB AX) (fun a' => shf (cD AX) (Mw a1 c1 s11 s12 s22 AX a') (expo AX d) (expo AX c)) (expo AX b) (expo AX a)
+    * shf (cB AY) (fun a' => shf (cD AY) (Mw a1 c1 s11 s12 s22 AY a') (expo AY d) (expo AY c)) (expo AY b) (expo AY a)
+    * shf (cB AZ) (fun a' => shf (cD AZ) (Mw a1 c1 s11 s12 s22 AZ a') (expo AZ d) (expo AZ c)) (expo AZ b) (expo AZ a).
+Proof.
+  unfold E6. rewrite Jsum6_tens.
+  rewrite (Jsum_ext K _ (pj (fun a' => shf (cD AX) (Mw a1 c1 s11 s12 s22 AX a') (expo AX d) (expo AX c))
+                            (fun a' => shf (cD AY) (Mw a1 c1 s11 s12 s22 AY a') (expo AY d) (expo AY c))
+                            (fun a' => shf (cD AZ) (Mw a1 c1 s11 s12 s22 AZ a') (expo AZ d) (expo AZ c)))).
+  - apply pj_smono_mono3.
+  - intro m1. unfold pj. rewrite <- pj_smono_mono3. apply Jsum_ext. intro m2. reflexivity.
+Qed.
+
 End Poly6.
